@@ -129,11 +129,10 @@ theorem cancel_flags_frame (s : State) (st : Bool) (hs : s.stopped = true → st
   ⟨fun _ => ⟨rfl, rfl⟩, rfl, rfl, rfl, rfl, rfl, id, hs, fun _ _ => rfl,
    fun hb => ⟨fun h => (by cases h), hb.reader, fun h => (by cases h), hb.started⟩⟩
 
-theorem cancel_unstarted_frame (s : State) :
+theorem cancel_unstarted_frame (s : State) (hst : ¬ s.blockStarted = true) :
     Frame s { s with onStopArmed := false, blockHandler := false, blockReader := false, stopped := true } :=
   ⟨fun _ => ⟨rfl, rfl⟩, rfl, rfl, rfl, rfl, rfl, id, fun _ => rfl, fun _ _ => rfl,
-   fun hb => ⟨fun h => (by cases h), fun h => (by cases h), fun h => (by cases h),
-     fun h => (by have := (hb.started h).1; exact absurd h (by intro _; exact Bool.noConfusion (hb.started h |>.1 ▸ rfl : true = true) |> fun _ => False.elim (by cases h <;> contradiction)))⟩⟩
+   fun _ => ⟨fun h => (by cases h), fun h => (by cases h), fun h => (by cases h), fun h => absurd h hst⟩⟩
 
 theorem cancelBlock_inv (s : State) (h : Bytes) (hI : Inv s) : Inv (cancelBlock s h).1 := by
   unfold cancelBlock
@@ -144,7 +143,7 @@ theorem cancelBlock_inv (s : State) (h : Bytes) (hI : Inv s) : Inv (cancelBlock 
     · split
       · split
         · exact connectionEnd_inv _ (hI.frame (cancel_flags_frame s true (fun _ => rfl)))
-        · exact runEnd_inv _ (hI.frame (cancel_unstarted_frame s))
+        · rename_i hst; exact runEnd_inv _ (hI.frame (cancel_unstarted_frame s hst))
       · exact hI.frame ⟨fun _ => ⟨rfl, rfl⟩, rfl, rfl, rfl, rfl, rfl, id, id, fun _ _ => rfl,
           fun hb => ⟨fun h => (by cases h), hb.reader, fun h => (by cases h), hb.started⟩⟩
 
